@@ -7,11 +7,11 @@ the producer task is spawned; (R5) the crate keeps deny(unused_must_use).
 Does not decide: that every operator *returns* an error for every bad input (value level)."""
 import re
 
-from tmpl import fate, site, start_sites, done_sites, suffix
+from tmpl import fate, site, start_sites, done_sites, suffix, result_switch_fate
 
 ERR_TYPES = ('storage::error::TracedStorageError', 'storage::error::StorageError', 'types::ConvertError',
              'executor::error::Error', 'catalog::CatalogError', 'std::io::Error', 'db::Error', 'csv::Error',
-             'serde_json::Error', 'binder::error::BindError')
+             'serde_json::Error', 'binder::error::BindError', 'tokio::task::JoinError')
 STATEMENT_PATH = re.compile(r'^<?(executor|storage|db|array|catalog)::')
 # consumers that look at the error and turn it into control flow / propagate it
 PROPAGATE = re.compile(r'(Try::branch|FromResidual::from_residual|Result::<[^>]*>::(map_err|map|and_then|or_else|unwrap|expect'
@@ -68,13 +68,13 @@ def result_fates(prog, path_re):
                             and any(p.startswith('as:Ready') for p in st['rv']['op']['pl']['p']) and not st['lhs']['p']]
                 fs = set()
                 for pl_ in payloads:
-                    fs |= fate(b, pl_, classify)
+                    fs |= fate(b, pl_, classify, classify_switch=result_switch_fate)
                 if not payloads:
                     fs = {'propagated'}   # the poll result is handed on as a whole
                 bad = sorted(f for f in fs if f == 'dropped' or f.startswith('swallowed'))
                 good = fs - set(bad)
             else:
-                fs = fate(b, d['l'], classify)
+                fs = fate(b, d['l'], classify, classify_switch=result_switch_fate)
                 bad = sorted(f for f in fs if f == 'dropped' or f.startswith('swallowed'))
                 good = fs - set(bad)
             out.append((b, c, et, bad, good, awaited))
@@ -133,8 +133,8 @@ def run(ctx):
         import mir
         fx = mir.load_fixture()
         flagged = {b.root for b, c, et, bad, good, aw in result_fates(fx, re.compile(r'^executor::')) if bad and not good}
-        want = {'executor::dropped', 'executor::swallowed', 'executor::defaulted'}
-        clean = {'executor::propagated', 'executor::matched', 'executor::tested'}
+        want = {'executor::dropped', 'executor::swallowed', 'executor::defaulted', 'executor::if_let_ok'}
+        clean = {'executor::propagated', 'executor::matched', 'executor::tested', 'executor::loop_matched'}
         ctx.ob(R1, 'self-test·fixture', flagged >= want and not (flagged & clean),
                f'positive examples flagged: {sorted(flagged)}; expected {sorted(want)} and none of {sorted(clean)}')
     except SystemExit as e:
